@@ -410,6 +410,24 @@ func enumerate(tier string) []History {
 				}
 			}
 		}
+		// reduced pair space: two tunnels on two connections, one request each, interleaved
+		for _, l := range listeners {
+			for _, inA := range inners {
+				for _, inB := range inners {
+					if tlsListener(l) && (inA == "plain" || inB == "plain") {
+						continue
+					}
+					formSeqs(1, func(fa []string) {
+						formSeqs(1, func(fb []string) {
+							add(History{Space: "pair", Listener: l, Hijack: "none", Conns: []Script{
+								{Phases: []Phase{ph(hostName+":443", inA, fa)}, TLS: "default", SNI: "same", Auth: "443"},
+								{Phases: []Phase{ph(hostName+":8443", inB, fb)}, TLS: "default", SNI: "same", Auth: "8443"},
+							}})
+						})
+					})
+				}
+			}
+		}
 		extra(false, add)
 		return out
 	}
@@ -656,6 +674,13 @@ type ReqObs struct {
 	ResSecure  bool   `json:"res_secure,omitempty"`
 	ResTLS     bool   `json:"res_tls,omitempty"`
 	ResSession int    `json:"res_session,omitempty"`
+
+	// Session values: every message stores one value on its session in the request modifier; every later message
+	// of the same connection must still find it (request and response modifier), no other connection may.
+	Lost      []string `json:"session_values_lost,omitempty"`
+	ResLost   []string `json:"session_values_lost_at_response,omitempty"`
+	Leaked    []string `json:"session_values_of_other_connections,omitempty"`
+	ValuesSet int      `json:"session_values_checked"`
 }
 
 // OriginReq is one request the origin received.
@@ -1224,6 +1249,33 @@ type recorder struct {
 	sessions []*martian.Session // kept alive so that pointer identity is meaningful
 	hijack   *HijackObs
 	hjDone   chan struct{}
+	stored   map[int][]int // per connection: seqs of the messages that stored their session value so far
+}
+
+func valKey(conn, seq int) string { return fmt.Sprintf("c05.value.c%d.s%d", conn, seq) }
+func valOf(conn, seq int) string  { return fmt.Sprintf("stored-by-c%d-s%d", conn, seq) }
+
+// checkValues looks up, on session s, the values stored by earlier messages (seq < upTo, or <= upTo if incl) of
+// connection conn, and the values of all other connections. Caller holds m.mu.
+func (m *recorder) checkValues(s *martian.Session, conn, upTo int, incl bool) (lost, leaked []string, n int) {
+	for c, seqs := range m.stored {
+		for _, q := range seqs {
+			v, ok := s.Get(valKey(c, q))
+			if c == conn {
+				if q < upTo || (incl && q == upTo) {
+					n++
+					if !ok || v != valOf(c, q) {
+						lost = append(lost, valKey(c, q))
+					}
+				}
+			} else if ok {
+				leaked = append(leaked, valKey(c, q))
+			}
+		}
+	}
+	sort.Strings(lost)
+	sort.Strings(leaked)
+	return
 }
 
 func (m *recorder) sessionIndex(s *martian.Session) int {
@@ -1260,6 +1312,11 @@ func (m *recorder) ModifyRequest(req *http.Request) error {
 		ob.Secure = s.IsSecure()
 		ob.Session = m.sessionIndex(s)
 		ob.SessionID = s.ID()
+		if ob.Conn >= 0 && ob.Seq >= 0 {
+			ob.Lost, ob.Leaked, ob.ValuesSet = m.checkValues(s, ob.Conn, ob.Seq, false)
+			s.Set(valKey(ob.Conn, ob.Seq), valOf(ob.Conn, ob.Seq))
+			m.stored[ob.Conn] = append(m.stored[ob.Conn], ob.Seq)
+		}
 	}
 	if req.TLS != nil {
 		ob.TLS = true
@@ -1295,6 +1352,9 @@ func (m *recorder) ModifyResponse(res *http.Response) error {
 			if ctx != nil && ctx.Session() != nil {
 				ob.ResSecure = ctx.Session().IsSecure()
 				ob.ResSession = m.sessionIndex(ctx.Session())
+				var leaked []string
+				ob.ResLost, leaked, _ = m.checkValues(ctx.Session(), conn, seq, true)
+				ob.Leaked = append(ob.Leaked, leaked...)
 			}
 			break
 		}
@@ -1676,7 +1736,7 @@ func runHistory(e *env, h History) *Outcome {
 	}
 	defer org.close()
 
-	rec := &recorder{h: h, hjSeq: -1, hjDone: make(chan struct{})}
+	rec := &recorder{h: h, hjSeq: -1, hjDone: make(chan struct{}), stored: map[int][]int{}}
 	if h.Hijack != "none" {
 		its := h.items(0)
 		rec.hjSeq = its[len(its)-1].seq
@@ -1865,6 +1925,18 @@ func judge(o *Outcome, st *judgeStats) []V {
 		return n
 	}
 	connSessions := make([]map[int]bool, len(h.Conns))
+	// "share one session": what a modifier stored on the session at an earlier message of the connection is still
+	// there, and nothing stored on another connection's session is visible.
+	values := func(E string, at map[string]string, what string, ob *ReqObs) {
+		check()
+		if len(ob.Lost) > 0 || len(ob.ResLost) > 0 {
+			addV(E, "session_value_lost", at, "%s: values stored on the session (ctx.Session().Set) by earlier messages of this connection are gone: in the request modifier %v, in the response modifier %v (of %d stored)", what, ob.Lost, ob.ResLost, ob.ValuesSet)
+		}
+		check()
+		if len(ob.Leaked) > 0 {
+			addV(E, "session_value_leaked_across_connections", at, "%s: the session shows values stored on ANOTHER connection's session: %v", what, ob.Leaked)
+		}
+	}
 
 	for ci, sc := range h.Conns {
 		co := &o.Conns[ci]
@@ -1917,6 +1989,7 @@ func judge(o *Outcome, st *judgeStats) []V {
 					if connectObs == nil {
 						addV(E, "connect_not_presented_to_modifiers", pat, "the CONNECT to %s was answered 200 but never shown to the request modifier", ph.Authority)
 					} else {
+						values(E, pat, fmt.Sprintf("CONNECT %s (message %d of the connection)", ph.Authority, it.seq), connectObs)
 						connSessions[ci][connectObs.Session] = true
 						if connSession == -2 {
 							connSession = connectObs.Session
@@ -2068,6 +2141,7 @@ func judge(o *Outcome, st *judgeStats) []V {
 			if connSession == -2 {
 				connSession = ob.Session
 			}
+			values(E, at, fmt.Sprintf("request %d (%s)", it.idx, it.form), ob)
 
 			// "forwarded upstream over TLS, never in cleartext"
 			var up []OriginReq
@@ -2761,7 +2835,7 @@ func main() {
 	if tier == "thorough" {
 		rep.Coverage["bounds"] = "core: N<=4 requests, 5 listeners, 2 tunnel contents (transparent: TLS only), ports {443,8443}, 4 target forms per request, 5 hijack variants at the last request (= every index 1..4); nested: 3 TLS listener layerings x outer profile {default, TLS1.2} x N<=3 x 5 hijack variants; config: N<=2 x 6 authority spellings x 2 SNI x 4 TLS profiles x 2 early-data modes (minus combinations that are core or impossible); pair: 2 connections x N<=2 each, all content combinations; reconnect: 1..2 plaintext requests then second CONNECT with TLS/plaintext and 1..2 requests"
 	} else {
-		rep.Coverage["bounds"] = "core: N<=2 requests, 5 listeners, 2 tunnel contents (transparent: TLS only), ports {443,8443}, 4 target forms per request, 5 hijack variants at the last request; nested: 3 TLS listener layerings x outer profile {default, TLS1.2} x N<=2 x 5 hijack variants; config (reduced): 3 authority spellings x {plain, shaped} x {TLS, plaintext} x form sequences of length 1..2 containing nohost"
+		rep.Coverage["bounds"] = "core: N<=2 requests, 5 listeners, 2 tunnel contents (transparent: TLS only), ports {443,8443}, 4 target forms per request, 5 hijack variants at the last request; nested: 3 TLS listener layerings x outer profile {default, TLS1.2} x N<=2 x 5 hijack variants; config (reduced): 3 authority spellings x {plain, shaped} x {TLS, plaintext} x form sequences of length 1..2 containing nohost; pair (reduced): one request per connection; plus reduced hostless, traffic, upfail, hsfail, variant, downstream spaces"
 	}
 	rep.Finish()
 }
